@@ -1,11 +1,11 @@
 ---------------------------- MODULE MC_SqwContent ----------------------------
 EXTENDS SqwContent, TLC
-MC_RunLists == {<<0>>, <<0, 1>>, <<3, 4, 9>>, <<0, 1, 2, 3, 4>>}
+MC_RunLists == {<<0>>, <<0, 1>>, <<3, 4, 9>>, <<0, 1, 2, 3, 4>>, <<4, 0, 9>>, <<2, 1, 0>>}
 Asc(k)  == [p \in 1..k |-> p]
 Desc(k) == [p \in 1..k |-> k + 1 - p]
 (* minimum in the middle, maximum at the end, ties *)
 Zig(k)  == [p \in 1..k |-> IF p = (k + 1) \div 2 THEN 0 ELSE IF p = k THEN k + 5 ELSE 3 + (p % 2)]
 MC_Orders == UNION {{Asc(k), Desc(k), Zig(k)} : k \in NPix}
 (* export of the model's configurations: the driver performs each on the real builder *)
-EmitCfg == phase = "done" => PrintT(<<"CFG", n, chunk, runs>>)
+EmitCfg == (phase = "done" /\ gen = 1) => PrintT(<<"CFG", n, chunk, runs>>)
 =============================================================================
